@@ -44,6 +44,7 @@ type sweep struct {
 	ledger string
 	cur    string // last known snapshot of the swept ledger
 	nreq    int
+	njs     int // json-stream requests generated so far
 	nledger int
 	replay  []string
 }
@@ -177,6 +178,8 @@ func (s *sweep) check(q httpReq, resp httpResp) {
 				} else if err := json.Unmarshal(resp.Body, &env); err != nil || env.ErrorCode == nil || *env.ErrorCode == "" {
 					viol("4xx answer without the JSON error envelope {errorCode, errorMessage}: " + desc + " [envelope]")
 				}
+			} else if strings.HasPrefix(q.Route, "v2.bulk") && jsonEnvelope(resp.Body) {
+				o.Stats["bulk_envelope_without_content_type"]++ // writeJSONResponse sets no Content-Type header; the body is the JSON envelope
 			} else if resp.Code == 404 || resp.Code == 405 {
 				o.Stats["plain_router_404_405"]++
 			} else {
@@ -189,7 +192,10 @@ func (s *sweep) check(q httpReq, resp httpResp) {
 		}
 	}
 	if q.Write || resp.Code >= 500 || s.nreq%25 == 0 {
-		if (resp.Code >= 200 && resp.Code < 300 && q.Write) || (strings.HasPrefix(q.Route, "v2.bulk") && bulkErrorBody(resp.Body)) {
+		nonAtomicStream := (q.Route == "v2.bulk.jsonStream" || q.Route == "v2.bulk.scriptStream") && !strings.Contains(q.Path, "atomic=true") && jsonEnvelope(resp.Body)
+		if (resp.Code >= 200 && resp.Code < 300 && q.Write) || (strings.HasPrefix(q.Route, "v2.bulk") && bulkErrorBody(resp.Body)) || nonAtomicStream {
+			// (a non-atomic stream that turns out malformed keeps the elements read and committed before the malformed one, as a
+			// failing element does)
 			// a non-atomic bulk answered 400 keeps the elements committed before the failing one (by design, C32)
 			s.cur = s.snapshot()
 			o.Stats["writes_committed"]++
@@ -197,7 +203,11 @@ func (s *sweep) check(q httpReq, resp httpResp) {
 			now := s.snapshot()
 			o.Stats["snapshots_compared"]++
 			if now != s.cur {
-				viol("ledger changed by a request answered " + fmt.Sprint(resp.Code) + ": " + desc + " [effect-after-error]")
+				tag := "[effect-after-error]"
+				if (q.Route == "v2.bulk.jsonStream" || q.Route == "v2.bulk.scriptStream") && strings.Contains(q.Path, "atomic=true") {
+					tag = "[atomic-stream-partial]"
+				}
+				viol("ledger changed by a request answered " + fmt.Sprint(resp.Code) + ": " + desc + " " + tag)
 				s.cur = now
 			}
 		}
@@ -309,6 +319,7 @@ func sweepRoutes() []sweepRoute {
 		{name: "v2.createTransaction", method: "POST", path: constPath(v2 + "/transactions"), body: txBody, write: true},
 		{name: "v2.bulk", method: "POST", path: constPath(v2 + "/_bulk"), body: bulkBody, write: true},
 		{name: "v2.bulk.scriptStream", custom: genScriptStream},
+		{name: "v2.bulk.jsonStream", custom: genJSONStream},
 		{name: "v2.revertTransaction", method: "POST", path: constPath(v2 + "/transactions/%ID%/revert"), write: true, idPos: "id"},
 		{name: "v2.addTransactionMetadata", method: "POST", path: constPath(v2 + "/transactions/%ID%/metadata"), body: metaBody, write: true, idPos: "id"},
 		{name: "v2.deleteTransactionMetadata", method: "DELETE", path: constPath(v2 + "/transactions/%ID%/metadata/k1"), write: true, idPos: "id"},
@@ -396,6 +407,37 @@ func textStreamPanics(body string) (msg string) {
 		}
 	}
 	return ""
+}
+
+func jsonEnvelope(b []byte) bool {
+	var env struct {
+		ErrorCode *string `json:"errorCode"`
+	}
+	return json.Unmarshal(b, &env) == nil && env.ErrorCode != nil && *env.ErrorCode != ""
+}
+
+// genJSONStream: POST /_bulk with the json-stream content type: concatenated JSON elements
+func genJSONStream(s *sweep, r *Rng) httpReq {
+	el := func(dst string, amt int) string {
+		return fmt.Sprintf(`{"action":"CREATE_TRANSACTION","data":{"postings":[{"source":"world","destination":%q,"asset":"USD","amount":%d}]}}`, dst, amt)
+	}
+	good := []string{el("alice", 1) + "\n" + el("bob", 2) + "\n", el("alice", 3), "", "\n"}
+	bad := []string{el("alice", 1) + "\n{", el("alice", 1) + "\nnul", "[" + el("alice", 1) + "]", `{"action":5}`, el("alice", 1) + `{"action":"CREATE_TRANSACTION","data":"x"}`, "hello", `"x"`}
+	q := httpReq{Method: "POST", Path: "/v2/l1/_bulk", Hdr: map[string]string{"Content-Type": "application/vnd.formance.ledger.api.v2.bulk+json-stream"}, Class: "json_stream", Write: true}
+	// the malformed streams are enumerated (each one with and without atomic=true) rather than drawn, so that a quick run sees them all
+	k := s.njs
+	s.njs++
+	r.Next()
+	if k%3 == 2 {
+		q.Body = good[(k/3)%len(good)]
+	} else {
+		i := (k - k/3) % (2 * len(bad))
+		q.Body, q.MustReject, q.Class = bad[i/2], true, "json_stream_malformed"
+		if i%2 == 1 {
+			q.Path += "?atomic=true"
+		}
+	}
+	return q
 }
 
 func genScriptStream(s *sweep, r *Rng) httpReq {
